@@ -1,0 +1,36 @@
+//go:build verif
+
+package tls
+
+// ZVC33Tables returns copies of the unexported name tables behind the JSON
+// encoders/decoders of the enumerated TLS types (verification hook, C33).
+func ZVC33Tables() map[string]map[int]string {
+	out := map[string]map[int]string{}
+	put8 := func(name string, m map[uint8]string) {
+		c := map[int]string{}
+		for k, v := range m {
+			c[int(k)] = v
+		}
+		out[name] = c
+	}
+	put8("signatureNames", signatureNames)
+	put8("hashNames", hashNames)
+	put8("compressionNames", compressionNames)
+	put8("pointFormatNames", pointFormatNames)
+	c := map[int]string{}
+	for k, v := range cipherSuiteNames {
+		c[k] = v
+	}
+	out["cipherSuiteNames"] = c
+	c = map[int]string{}
+	for k, v := range curveNames {
+		c[int(k)] = v
+	}
+	out["curveNames"] = c
+	c = map[int]string{}
+	for k, v := range clientAuthTypeNames {
+		c[k] = v
+	}
+	out["clientAuthTypeNames"] = c
+	return out
+}
